@@ -47,7 +47,7 @@ func (g *gen) tree(maxDepth, maxNodes int) *wc.Node {
 			if depth < maxDepth && g.r.Intn(5) < 2 {
 				n.Kids = append(n.Kids, build(cp, depth+1))
 			} else {
-				n.Kids = append(n.Kids, &wc.Node{Path: cp, Kind: "rrrrls"[g.r.Intn(6)], Size: 4 + g.r.Intn(3)})
+				n.Kids = append(n.Kids, &wc.Node{Path: cp, Kind: "rrrrrrrrllssL"[g.r.Intn(13)], Size: 4 + g.r.Intn(3)})
 			}
 		}
 		if g.r.Intn(3) == 0 && cnt < maxNodes {
@@ -162,8 +162,23 @@ func (g *gen) newCase() *wc.Case {
 	all := append(append([]string{}, allDirs...), allFiles...)
 	if usePaths {
 		var pool []string
-		for _, p := range all { // requested symlinks/specials are out of the model's scope (fs.Stat follows links on a real FS)
-			pool = append(pool, p)
+		linkToDir := map[string]bool{}
+		for _, rt := range c.Roots {
+			var mark func(n *wc.Node)
+			mark = func(n *wc.Node) {
+				if n.Kind == 'L' {
+					linkToDir[n.Path] = true
+				}
+				for _, k := range n.Kids {
+					mark(k)
+				}
+			}
+			mark(rt.Tree)
+		}
+		for _, p := range all { // a requested symlink to a DIRECTORY would be walked through the link: outside the model
+			if !linkToDir[p] {
+				pool = append(pool, p)
+			}
 		}
 		c.Paths = g.pick(pool, 3)
 		if r.Intn(10) == 0 {
